@@ -2,32 +2,26 @@ package main
 
 // C06 — documented concurrent use of Conn is free of data races.
 //
-// Static side: the lock/map action sequence of every function of package smpp
-// touching Conn.pending (gen_connlocks.go) must be well locked; the Coq
-// theorems quantify over those routines (Gen/ConnLocks.v).
-// Dynamic side: the -race build of this harness (.work/harness_race) runs the
-// README workload and forced schedules of C05/C15/C16; a race report whose
-// racing access is made by code of go-smpp, or a "concurrent map" abort of
-// the runtime, is the failing input.
+// Static side (c06_extract.go -> Gen/ConnLocks.v): for every README role the
+// control-flow graph of lock operations and accesses to ANY part of the state
+// of Conn; two accesses to the same non-synchronisation location, at least one
+// a write, by roles that can run in different goroutines, without a common
+// mutex, are the failing input (the two sites, the two roles, the held sets).
+// The theorems of Properties/C06.v are about any such table; the generated
+// cases evaluate the Coq checker on the table of the current source.
+// What the extraction cannot interpret is left to the dynamic side, with a note.
+//
+// Dynamic side (c06_dyn.go): the README roles under `go build -race`, one
+// child process per configuration.
+//
+// Tie (c06_tie.go): the lock operations the table predicts are observed on
+// the running code through the runtime's mutex-contention profile.
 
 import (
-	"bytes"
-	"context"
-	"encoding/json"
 	"fmt"
-	"net"
 	"os"
-	"os/exec"
-	"path/filepath"
-	"regexp"
-	"strconv"
+	"sort"
 	"strings"
-	"sync"
-	"sync/atomic"
-	"time"
-
-	smpp "github.com/M2MGateway/go-smpp"
-	"github.com/M2MGateway/go-smpp/pdu"
 )
 
 const libPrefix = "github.com/M2MGateway/go-smpp"
@@ -38,272 +32,172 @@ func init() {
 		raceLoadMain()
 		os.Exit(0)
 	}
-}
-
-type raceSummary struct {
-	Workloads map[string]int `json:"workloads"`
-	Submits   int            `json:"submits"`
-	Sends     int            `json:"sends"`
-	Inbound   int            `json:"unsolicited"`
-	Pings     int            `json:"enquire_links"`
-	Problems  []string       `json:"problems"`
-	RaceBuild bool           `json:"race_build"`
+	if len(os.Args) > 1 && os.Args[1] == "c06tie" {
+		tieChildMain(os.Args[2:])
+		os.Exit(0)
+	}
+	if len(os.Args) > 1 && os.Args[1] == "c06static" { // debugging aid: the static verdict for $VERIF_REPO
+		t := extractConnTable()
+		fmt.Println("err:", t.Err, "notes:", t.Notes)
+		fmt.Printf("%d locations, %d mutexes, %d nodes, %d entries\n", len(t.Locs), len(t.Mus), len(t.Nodes), len(t.Entries))
+		for _, e := range t.Entries {
+			if len(e.Bad) > 0 {
+				fmt.Printf("NOT ANALYSED %s (readme=%v): %s\n", e.Name, e.Readme, strings.Join(e.Bad, " | "))
+			}
+		}
+		for _, rd := range []bool{true, false} {
+			for _, c := range t.conflicts(rd) {
+				fmt.Printf("CONFLICT readme=%v %q: %s || %s\n", rd, t.Locs[c.Loc].Path, t.describe(c.N1), t.describe(c.N2))
+			}
+		}
+		os.Exit(0)
+	}
 }
 
 func corrC06(r *Run) {
-	r.Import("Model.LockProto")
-	r.Import("Model.ConnRun")
-	r.Rule = "static: every function of package smpp that mentions Conn.pending, as a lock/map action sequence; " +
-		"dynamic (go build -race): README workload (Watch, EnquireLink with 2 ms tick, 1..16 goroutines calling Submit and Send, a consumer of PDU() answering requests, " +
-		"one caller whose own context times out about when its response arrives, a peer answering asynchronously and sending unsolicited deliver_sm, final Close) " +
-		"with default and custom NextSequence, plus forced schedules of C05, C15 and C16 and schedules in which a response is handed over exactly while the caller's own context ends; " +
-		"non-trivial = workloads with at least two submitting goroutines; distinct by workload label"
-	// ---- static
-	rs, err := connLockRoutines()
-	if err != nil {
-		fmt.Fprintln(os.Stderr, "cannot parse the root package:", err)
-		os.Exit(2)
-	}
-	touched := false
-	for _, rt := range rs {
-		held, ok := false, true
-		for _, a := range rt.Acts {
-			switch {
-			case a == "ALock":
-				ok = ok && !held
-				held = true
-			case a == "AUnlock":
-				ok = ok && held
-				held = false
-			default:
-				touched = true
-				ok = ok && held
-			}
-		}
-		ok = ok && !held
-		r.Count("routine/"+rt.Name, true, "static/routine")
-		in := fmt.Sprintf("routine %s [%s]", rt.Name, strings.Join(rt.Acts, "; "))
-		if !ok {
-			r.Fail("lock-discipline/"+rt.Name, "a function of package smpp touches Conn.pending outside the mutex (or mis-nests Lock/Unlock)", in,
-				"actions in source order: "+strings.Join(rt.Acts, "; "), "Lock; map accesses; Unlock")
-		}
-		r.Case(in, fmt.Sprintf("Bool.eqb (routine_ok [%s]) %s", strings.Join(rt.Acts, "; "), coqBool(ok)))
-	}
-	if !touched {
-		r.Notes = append(r.Notes, "no function of package smpp mentions Conn.pending: the extraction found nothing (renamed field?)")
-	}
-	// ---- random interleavings of threads running the extracted routines, through the model's semantics
-	if len(rs) > 0 {
-		for i, n := 0, r.N(160, 900); i < n; i++ {
-			c06Interleaving(r, rs, i)
-		}
-	}
-	// ---- the LTS's pending-table events, expanded into their routines, obey the discipline
-	ts := pduTypes()
-	for i, n := 0, r.N(48, 300); i < n; i++ {
-		c06LockTrace(r, ts, i)
-	}
-	// ---- dynamic
-	bin := filepath.Join(filepath.Dir(r.Dir), "harness_race")
-	if _, err := os.Stat(bin); err != nil {
-		fmt.Fprintln(os.Stderr, "race build of the harness not found:", bin)
-		os.Exit(2)
-	}
-	logBase := filepath.Join(r.Dir, "racelog")
-	old, _ := filepath.Glob(logBase + "*")
-	for _, f := range old {
-		_ = os.Remove(f)
-	}
-	cmd := exec.Command(bin, "raceload", r.Tier, strconv.FormatUint(r.Seed, 10), r.Dir)
-	cmd.Env = append(os.Environ(), "GORACE=halt_on_error=0 exitcode=0 log_path="+logBase)
-	var stdout, stderr bytes.Buffer
-	cmd.Stdout, cmd.Stderr = &stdout, &stderr
-	done := make(chan error, 1)
-	if err := cmd.Start(); err != nil {
-		fmt.Fprintln(os.Stderr, "cannot start the race build:", err)
-		os.Exit(2)
-	}
-	go func() { done <- cmd.Wait() }()
-	limit := 8 * time.Minute
-	if r.Quick {
-		limit = 150 * time.Second
-	}
-	var runErr error
-	select {
-	case runErr = <-done:
-	case <-time.After(limit):
-		_ = cmd.Process.Kill()
-		runErr = fmt.Errorf("race workload exceeded %s", limit)
-	}
-	var sum raceSummary
-	_ = json.Unmarshal(stdout.Bytes(), &sum)
-	for k, v := range sum.Workloads {
-		for i := 0; i < v; i++ {
-			r.Count(fmt.Sprintf("%s#%d", k, i), !strings.Contains(k, "submitters=1/"), "dynamic/"+k)
-		}
-	}
-	r.Sample(map[string]interface{}{"race_build": sum.RaceBuild, "submits": sum.Submits, "sends": sum.Sends, "unsolicited_pdus": sum.Inbound,
-		"enquire_links": sum.Pings, "workloads": sum.Workloads})
-	for _, p := range sum.Problems {
-		r.Notes = append(r.Notes, "race workload: "+p)
-	}
-	if !sum.RaceBuild && runErr == nil {
-		fmt.Fprintln(os.Stderr, "the race workload did not run in a -race build")
-		os.Exit(2)
-	}
-	// runtime abort
-	errText := stderr.String()
-	if m := regexp.MustCompile(`fatal error: (concurrent map[^\n]*)`).FindStringSubmatch(errText); m != nil {
-		r.Fail("runtime-fatal/concurrent-map-access", "the Go runtime aborted the workload: "+m[1], "raceload "+r.Tier+" seed "+fmt.Sprint(r.Seed),
-			tail(head(errText, 5000), 2500), "no runtime fatal error")
-	} else if runErr != nil {
-		if strings.Contains(errText, "go-smpp.(*Conn)") {
-			r.Fail("runtime-fatal/other", "the workload process died inside the library", "raceload "+r.Tier, tail(errText, 2500), "workload completes")
-		} else {
-			fmt.Fprintln(os.Stderr, "race workload failed:", runErr, "\n", tail(errText, 3000))
-			os.Exit(2)
-		}
-	}
-	// race reports
-	logs, _ := filepath.Glob(logBase + "*")
-	nRep, nLib := 0, 0
-	for _, f := range logs {
-		data, _ := os.ReadFile(f)
-		for _, rep := range strings.Split(string(data), "==================") {
-			if !strings.Contains(rep, "WARNING: DATA RACE") {
-				continue
-			}
-			nRep++
-			fn := raceLibraryAccess(rep)
-			if fn == "" {
-				continue
-			}
-			nLib++
-			r.Fail("race/"+fn, "the race detector reports a data race with an access made by go-smpp code", "raceload "+r.Tier+" seed "+fmt.Sprint(r.Seed),
-				strings.TrimSpace(head(rep, 3000)), "no report with a frame inside the library")
-		}
-	}
-	if nRep > nLib {
-		r.Notes = append(r.Notes, fmt.Sprintf("%d race reports without a racing access inside go-smpp (harness code): ignored for the verdict", nRep-nLib))
-	}
+	r.Import("Model.Base")
+	r.Import("Model.LockTable")
+	r.Import("Gen.ConnLocks")
+	r.Rule = "static: per README role (Watch, EnquireLink, Submit, Send, Close, Done, PDU) the lock/access control-flow graph over every location of Conn's state, extracted from the current source; " +
+		"one case per location (Coq verdict of the regenerated table) and random schedules of 2..6 threads over the table; " +
+		"dynamic (go build -race, one child process per configuration): README workload with 1..16 submitting goroutines and default/5 s timeouts; senders running for a fixed time with " +
+		"WriteTimeout/ReadTimeout 2 ms, 20 ms, 200 ms and default; keep-alive whose enquire_link is left unanswered with the application's Close coming from a timer; Close while senders run; " +
+		"the peer dropping the transport; forced schedules of C05/C15/C16; response handed over exactly while the caller's own context ends; " +
+		"non-trivial = workloads with at least two goroutines sending; distinct by workload label"
+	c06Static(r)
+	c06Tie(r)
+	c06Dynamic(r)
 }
 
-var raceFrame = regexp.MustCompile(`(?m)^  (\S+)\(\)$`)
-
-// raceLibraryAccess: the go-smpp function performing one of the two racing
-// accesses (innermost frame that is not Go runtime/library code), or "".
-func raceLibraryAccess(rep string) string {
-	// the first two stacks of a report are the two accesses
-	stacks := regexp.MustCompile(`(?m)^(?:Write|Read|Previous write|Previous read|Atomic write|Atomic read|Previous atomic write|Previous atomic read)[^\n]*:\n((?:  \S[^\n]*\n      [^\n]*\n)+)`).FindAllStringSubmatch(rep, -1)
-	for _, st := range stacks {
-		for _, m := range raceFrame.FindAllStringSubmatch(st[1], -1) {
-			fn := m[1]
-			if strings.HasPrefix(fn, "runtime.") || strings.HasPrefix(fn, "internal/") || strings.HasPrefix(fn, "sync.") ||
-				strings.HasPrefix(fn, "sync/") || strings.HasPrefix(fn, "reflect.") {
-				continue
+func (t *lkTable) describe(n *lkNode) string {
+	e := t.Entries[n.Entry]
+	held := "no mutex held"
+	if len(n.LS) > 0 {
+		var hs []string
+		for _, h := range n.LS {
+			m := t.Mus[h.M].Path
+			if !h.Excl {
+				m += " (shared)"
 			}
-			if strings.HasPrefix(fn, libPrefix) {
-				return strings.TrimPrefix(strings.TrimPrefix(fn, libPrefix), ".")
-			}
-			break // the access was made by other code
+			hs = append(hs, m)
 		}
+		held = "holding " + strings.Join(hs, ", ")
 	}
-	return ""
+	what := map[string]string{"MRead": "read", "MWrite": "write", "MAtomicRead": "atomic read", "MAtomicWrite": "atomic write"}[n.Mode]
+	many := "one goroutine"
+	if e.Multi {
+		many = "any number of goroutines"
+	}
+	return fmt.Sprintf("%s at %s, reached from %s (%s), %s", what, n.Site, e.Name, many, held)
 }
 
-// c06LockTrace: a forced schedule (as in C05) whose model trace, with every
-// pending-table event expanded into its lock routine, must pass trace_ok.
-func c06LockTrace(r *Run, ts []pduType, idx int) {
-	rng := r.Rng
-	w := NewWorld(true)
-	defer w.Shutdown()
-	w.StartWatch()
-	n := 1 + rng.Intn(5)
-	var calls []*Call
-	for i := 0; i < n; i++ {
-		calls = append(calls, w.Go(i, CallSpec{Kind: "submit", Seq: int32(100 + 3*i + idx), P: genSendable(rng, ts, true, 400)})[0])
+func siteFunc(site string) string {
+	if i := strings.LastIndex(site, " "); i >= 0 {
+		return site[i+1:]
 	}
-	for _, i := range permOf(rng, n) {
-		c := calls[i]
-		switch rng.Intn(3) {
-		case 0:
-			w.PeerPDU(respFor(c.P, c.Seq))
-			w.Release(c)
-		case 1:
-			w.Release(c)
-			w.PeerPDU(respFor(c.P, c.Seq))
-		default:
-			w.Release(c)
-			w.CancelCtx(c)
-		}
-	}
-	w.PeerPDU(&pdu.DeliverSM{Header: pdu.Header{Sequence: 7}})
-	input := "sched " + w.Script()
-	r.Count(input, n >= 2, "static/lts-lock-trace")
-	if runStuck(r, w, input) {
+	return site
+}
+
+func c06Static(r *Run) {
+	t := extractConnTable()
+	if t.Err != "" {
+		r.Notes = append(r.Notes, "static extraction failed ("+t.Err+"): the verdict rests on the dynamic evidence alone")
 		return
 	}
-	gs := make([]string, len(w.groups))
-	for i, g := range w.groups {
-		gs[i] = coqList(g)
+	for _, n := range t.Notes {
+		r.Notes = append(r.Notes, "static extraction: "+n)
 	}
-	r.Case("lock trace of "+input[:min(len(input), 160)], fmt.Sprintf("lock_trace_ok fixed true %s", coqList(gs)))
-}
-
-// c06Interleaving: 2..6 threads, each running 1..4 of the routines found in the source, stepped in a
-// random order that respects the mutex; the Go side computes the verdict of the same discipline.
-func c06Interleaving(r *Run, rs []lockRoutine, idx int) {
-	rng := r.Rng
-	nt := 2 + rng.Intn(5)
-	progs := make([][]string, nt)
-	for t := range progs {
-		for j, n := 0, 1+rng.Intn(4); j < n; j++ {
-			progs[t] = append(progs[t], rs[rng.Intn(len(rs))].Acts...)
-		}
+	for _, e := range t.badEntries(true) {
+		r.Notes = append(r.Notes, fmt.Sprintf("static: role %s could not be analysed (%s): it is not in the Coq table; its accesses are covered by the dynamic evidence only", e.Name, strings.Join(e.Bad, " | ")))
 	}
-	pos := make([]int, nt)
-	holder := -1
-	ok, adjacent := true, false
-	var sched []string
-	lastMap, lastWrite := -1, false
-	for {
-		var ready []int
-		for t := range progs {
-			if pos[t] < len(progs[t]) && !(progs[t][pos[t]] == "ALock" && holder >= 0) {
-				ready = append(ready, t)
-			}
+	// ---- direct: conflicting accesses without a common mutex between README roles
+	confl := map[int][]lkConflict{}
+	for _, c := range t.conflicts(true) {
+		if len(t.Entries[c.N1.Entry].Bad)+len(t.Entries[c.N2.Entry].Bad) > 0 {
+			continue // a role whose lock state could not be followed: no verdict from here
 		}
-		if len(ready) == 0 {
+		confl[c.Loc] = append(confl[c.Loc], c)
+		l := t.Locs[c.Loc]
+		f1, f2 := siteFunc(c.N1.Site), siteFunc(c.N2.Site)
+		if f2 < f1 {
+			f1, f2 = f2, f1
+		}
+		in := fmt.Sprintf("two goroutines on one Conn, state %q (%s): [1] %s; [2] %s", l.Path, l.Type, t.describe(c.N1), t.describe(c.N2))
+		r.Fail("unsynchronised/"+f1+"+"+f2, "two README roles access the same connection state, at least one writing, with no common mutex held and the state is not a synchronisation object",
+			in, "no common mutex: "+t.describe(c.N1)+" || "+t.describe(c.N2), "every pair of conflicting accesses by different goroutines is ordered by a common mutex (or the state is a channel/context/atomic/sync object)")
+	}
+	for _, c := range t.conflicts(false) {
+		r.Notes = append(r.Notes, fmt.Sprintf("static (outside the README usage, not a verdict): state %q: %s || %s", t.Locs[c.Loc].Path, t.describe(c.N1), t.describe(c.N2)))
+		if len(r.Notes) > 30 {
 			break
 		}
-		t := ready[rng.Intn(len(ready))]
-		a := progs[t][pos[t]]
-		pos[t]++
-		sched = append(sched, fmt.Sprintf("%d%%nat", t))
-		switch a {
-		case "ALock":
-			holder = t
-			lastMap = -1
-		case "AUnlock":
-			ok = ok && holder == t
-			holder = -1
-			lastMap = -1
-		default:
-			w := a == "AMap true"
-			ok = ok && holder == t
-			if lastMap >= 0 && lastMap != t && (w || lastWrite) {
-				adjacent = true
-			}
-			lastMap, lastWrite = t, w
+	}
+	// ---- cases: the Coq checker on the regenerated table
+	inTab := 0
+	for _, e := range t.Entries {
+		if t.inTable(e) {
+			inTab++
+			r.Count("entry/"+e.Name, true, "static/role-in-table")
 		}
 	}
-	var ps []string
-	for _, p := range progs {
-		ps = append(ps, "["+strings.Join(p, "; ")+"]")
+	r.Case("the certificate of the regenerated table (held set at every node, edge by edge)", "table_wf conn_table")
+	written := map[int]bool{}
+	accessed := map[int]int{}
+	for _, n := range t.Nodes {
+		if n.Kind == "acc" && t.inTable(t.Entries[n.Entry]) {
+			accessed[n.Loc]++
+			if modeWrite(n.Mode) {
+				written[n.Loc] = true
+			}
+		}
 	}
-	in := fmt.Sprintf("interleave threads=%d sched=%s", nt, strings.Join(sched, ","))
-	r.Count(in, true, "static/interleaving")
-	r.Case(in[:min(len(in), 200)], fmt.Sprintf("Bool.eqb (lrun_ok %s %s) %s", coqList(ps), coqList(sched), coqBool(ok && !adjacent)))
+	for _, l := range t.Locs {
+		ok := true
+		for _, c := range confl[l.ID] {
+			if t.inTable(t.Entries[c.N1.Entry]) && t.inTable(t.Entries[c.N2.Entry]) {
+				ok = false
+			}
+		}
+		kind := "read-only after construction"
+		switch {
+		case l.Sync:
+			kind = "synchronisation object"
+		case !ok:
+			kind = "UNRESOLVED"
+		case written[l.ID]:
+			kind = "written under a common mutex"
+		}
+		r.Count(fmt.Sprintf("location %s : %s", l.Path, l.Type), written[l.ID] || l.Sync, "static/location/"+kind)
+		r.Case(fmt.Sprintf("location %s (%s, %d access nodes): %s", l.Path, l.Type, accessed[l.ID], kind),
+			fmt.Sprintf("Bool.eqb (loc_sync conn_table %d || loc_ok conn_table %d) %s && Bool.eqb (loc_sync conn_table %d) %s", l.ID, l.ID, coqBool(ok), l.ID, coqBool(l.Sync)))
+	}
+	// ---- random schedules over the table, run by the model; at every state no two threads are at conflicting accesses of a resolved location
+	var ids []int
+	for _, e := range t.Entries {
+		if t.inTable(e) {
+			ids = append(ids, e.ID)
+		}
+	}
+	sort.Ints(ids)
+	if len(ids) > 0 {
+		for i, n := 0, r.N(24, 120); i < n; i++ {
+			nt := 2 + r.Rng.Intn(5)
+			// roles: thread 0 may run every single-goroutine role, the others only the any-number roles
+			var sched []string
+			for k := 0; k < 300; k++ {
+				sched = append(sched, fmt.Sprintf("(%d%%nat, %d)", r.Rng.Intn(nt), func() int {
+					if r.Rng.Intn(3) == 0 {
+						return ids[r.Rng.Intn(len(ids))]
+					}
+					return r.Rng.Intn(3)
+				}()))
+			}
+			r.Count(fmt.Sprintf("schedule#%d threads=%d", i, nt), true, "static/random-schedule")
+			r.Case(fmt.Sprintf("random schedule #%d, %d threads, 300 attempted steps over the regenerated table", i, nt),
+				fmt.Sprintf("sched_check conn_table %s", coqList(sched)))
+		}
+	}
+	r.Sample(map[string]interface{}{"locations": len(t.Locs), "mutexes": len(t.Mus), "nodes": len(t.Nodes), "roles_in_table": inTab, "entries_total": len(t.Entries)})
 }
 
 func permOf(r *Rng, n int) []int {
@@ -316,275 +210,4 @@ func permOf(r *Rng, n int) []int {
 		p[i], p[j] = p[j], p[i]
 	}
 	return p
-}
-
-// ---------------------------------------------------------------- the -race child
-func raceLoadMain() {
-	tier := "quick"
-	seed := uint64(1)
-	dir := os.TempDir()
-	if len(os.Args) > 2 {
-		tier = os.Args[2]
-	}
-	if len(os.Args) > 3 {
-		seed, _ = strconv.ParseUint(os.Args[3], 10, 64)
-	}
-	if len(os.Args) > 4 {
-		dir = os.Args[4]
-	}
-	sum := raceSummary{Workloads: map[string]int{}, RaceBuild: raceEnabled}
-	rng := &Rng{s: seed*0x9E3779B97F4A7C15 + 77}
-	ks := []int{1, 2, 4, 8, 16}
-	rounds := 8
-	per := 25
-	if tier == "thorough" {
-		rounds, per = 10, 60
-	}
-	for round := 0; round < rounds; round++ {
-		for _, k := range ks {
-			for _, custom := range []bool{false, true} {
-				label := fmt.Sprintf("readme/submitters=%d/custom-sequence=%v", k, custom)
-				if err := readmeWorkload(rng, k, per, custom, &sum); err != "" {
-					sum.Problems = append(sum.Problems, label+": "+err)
-				}
-				sum.Workloads[label]++
-			}
-		}
-	}
-	// forced schedules under the race detector
-	scratch := NewRun("C06race", tier, seed, filepath.Join(dir, "race_scratch"))
-	ts := pduTypes()
-	nf := 70
-	if tier == "thorough" {
-		nf = 120
-	}
-	for i := 0; i < nf; i++ {
-		c05Scenario(scratch, ts, i, 8)
-		c15Scenario(scratch, ts, i, c15Terms[i%len(c15Terms)])
-		c16Scenario(scratch, ts, i)
-	}
-	c15Witnesses(scratch)
-	// a response handed to the waiter while the request's own context ends: both branches of Submit's select are ready
-	nr := 400
-	if tier == "thorough" {
-		nr = 800
-	}
-	for i := 0; i < nr; i++ {
-		raceResponseVsContext(rng, ts, i)
-	}
-	sum.Workloads["forced/response-vs-own-context"] += nr
-	sum.Workloads["forced/C05"] += nf
-	sum.Workloads["forced/C15"] += nf
-	sum.Workloads["forced/C16"] += nf
-	for _, f := range scratch.Failures {
-		sum.Problems = append(sum.Problems, "forced schedule under -race: "+f.Class+": "+head(f.Observed, 200))
-	}
-	out, _ := json.Marshal(sum)
-	fmt.Println(string(out))
-}
-
-// raceResponseVsContext: Watch hands the response to the waiter while the caller is still inside its transport
-// Write; the caller's own context ends; the Write returns: Submit's select finds its response and its context
-// both ready (either outcome is fine — what matters here is that the two goroutines touch nothing unsynchronised).
-// Variant: the context ends first and the response is taken while the caller leaves.
-func raceResponseVsContext(rng *Rng, ts []pduType, idx int) {
-	w := NewWorld(true)
-	defer w.Shutdown()
-	w.StartWatch()
-	p := genSendable(rng, ts, true, 300)
-	c := w.Go(0, CallSpec{Kind: "submit", Seq: int32(500 + idx), P: p})[0]
-	if w.Stuck != "" {
-		return
-	}
-	resp := frameOf(respFor(p, c.Seq))
-	switch idx % 3 {
-	case 0:
-		w.T.Inject(resp, nil)
-		w.quiesce()
-		c.stop()
-		w.Release(c)
-	case 1:
-		c.stop()
-		w.T.Inject(resp, nil)
-		w.quiesce()
-		w.Release(c)
-	default: // caller already in its select: cancel and response at the same moment
-		w.Release(c)
-		go c.stop()
-		w.T.Inject(resp, nil)
-	}
-	w.WaitUntil(2*time.Second, func() bool { return w.Returned(c) })
-}
-
-// readmeWorkload: the usage the README prescribes, free-running, over an in-memory connection.
-func readmeWorkload(rng *Rng, k, per int, customSeq bool, sum *raceSummary) string {
-	cli, srv := net.Pipe()
-	var peerWG sync.WaitGroup
-	var wmu sync.Mutex
-	send := func(p interface{}) {
-		wmu.Lock()
-		_, _ = pdu.Marshal(srv, p)
-		wmu.Unlock()
-	}
-	stopPeer := make(chan struct{})
-	var unsolicited, pings int32
-	peerWG.Add(2)
-	go func() { // reader: answers every request, asynchronously
-		defer peerWG.Done()
-		for {
-			p, err := pdu.ReadPDU(srv)
-			if err != nil && p == nil {
-				return
-			}
-			if _, ok := p.(*pdu.EnquireLink); ok {
-				atomic.AddInt32(&pings, 1)
-			}
-			if rq, ok := p.(pdu.Responsable); ok {
-				resp := rq.Resp()
-				peerWG.Add(1)
-				go func() {
-					defer peerWG.Done()
-					send(resp)
-				}()
-			}
-		}
-	}()
-	bound := make(chan struct{})
-	go func() { // unsolicited traffic, once the session is bound
-		defer peerWG.Done()
-		seq := int32(1 << 20)
-		select {
-		case <-bound:
-		case <-stopPeer:
-			return
-		}
-		for {
-			select {
-			case <-stopPeer:
-				return
-			case <-time.After(150 * time.Microsecond):
-			}
-			seq++
-			d := &pdu.DeliverSM{Header: pdu.Header{Sequence: seq}, SourceAddr: pdu.Address{No: "100"}, DestAddr: pdu.Address{No: "200"}}
-			_ = d.Message.Compose("ping")
-			send(d)
-			atomic.AddInt32(&unsolicited, 1)
-		}
-	}()
-
-	conn := smpp.NewConn(context.Background(), cli)
-	conn.WriteTimeout = 5 * time.Second
-	conn.ReadTimeout = 5 * time.Second
-	if customSeq {
-		var n int32
-		conn.NextSequence = func() int32 { return atomic.AddInt32(&n, 1) }
-	}
-	var wg sync.WaitGroup
-	wg.Add(1)
-	go func() { defer wg.Done(); conn.Watch() }()
-	problem := ""
-	var pmu sync.Mutex
-	note := func(s string) {
-		pmu.Lock()
-		if problem == "" {
-			problem = s
-		}
-		pmu.Unlock()
-	}
-	if resp, err := conn.Submit(context.Background(), &pdu.BindTransceiver{SystemID: "id", Password: "pw", Version: pdu.SMPPVersion50}); err != nil {
-		note("bind: " + err.Error())
-	} else if _, ok := resp.(*pdu.BindTransceiverResp); !ok {
-		note(fmt.Sprintf("bind answered by %T", resp))
-	}
-	close(bound)
-	wg.Add(1)
-	go func() { defer wg.Done(); conn.EnquireLink(2*time.Millisecond, time.Second) }()
-	wg.Add(1)
-	go func() { // the README's event loop (leaving when the connection is done)
-		defer wg.Done()
-		for {
-			select {
-			case <-conn.Done():
-				return
-			case packet, ok := <-conn.PDU():
-				if !ok || packet == nil {
-					return
-				}
-				if p, ok := packet.(pdu.Responsable); ok {
-					_ = conn.Send(p.Resp())
-				}
-			}
-		}
-	}()
-	var subWG sync.WaitGroup
-	var submits, sends int32
-	sendSeq := int32(1 << 28)
-	for g := 0; g < k; g++ {
-		subWG.Add(1)
-		go func(g int) {
-			defer subWG.Done()
-			for i := 0; i < per; i++ {
-				packet := &pdu.SubmitSM{SourceAddr: pdu.Address{TON: 1, NPI: 1, No: "00919821"}, DestAddr: pdu.Address{TON: 1, NPI: 1, No: "99919821"}}
-				_ = packet.Message.Compose("Hello World!")
-				resp, err := conn.Submit(context.Background(), packet)
-				if err != nil {
-					note("submit: " + err.Error())
-					return
-				}
-				if pdu.ReadSequence(resp) != pdu.ReadSequence(packet) {
-					note(fmt.Sprintf("submit got sequence %d for %d", pdu.ReadSequence(resp), pdu.ReadSequence(packet)))
-				}
-				atomic.AddInt32(&submits, 1)
-				if i%5 == 4 {
-					if err := conn.Send(&pdu.EnquireLink{Header: pdu.Header{Sequence: atomic.AddInt32(&sendSeq, 1)}}); err != nil {
-						note("send: " + err.Error())
-					}
-					atomic.AddInt32(&sends, 1)
-				}
-			}
-		}(g)
-	}
-	// an impatient caller: its own context ends about when the response arrives
-	subWG.Add(1)
-	go func() {
-		defer subWG.Done()
-		for i := 0; i < per; i++ {
-			ctx, cancel := context.WithTimeout(context.Background(), time.Duration(20+i*7%180)*time.Microsecond)
-			packet := &pdu.SubmitSM{SourceAddr: pdu.Address{No: "1"}, DestAddr: pdu.Address{No: "2"}}
-			_ = packet.Message.Compose("hurry")
-			_, _ = conn.Submit(ctx, packet) // deadline exceeded is an acceptable outcome
-			cancel()
-		}
-	}()
-	finished := make(chan struct{})
-	go func() { subWG.Wait(); close(finished) }()
-	select {
-	case <-finished:
-	case <-time.After(60 * time.Second):
-		note("submitters did not finish within 60 s")
-	}
-	close(stopPeer)
-	if err := conn.Close(); err != nil {
-		note("close: " + err.Error())
-	}
-	all := make(chan struct{})
-	go func() { wg.Wait(); close(all) }()
-	select {
-	case <-all:
-	case <-time.After(10 * time.Second):
-		note("Watch / EnquireLink / consumer did not return within 10 s of Close")
-	}
-	_ = srv.Close()
-	_ = cli.Close()
-	peerDone := make(chan struct{})
-	go func() { peerWG.Wait(); close(peerDone) }()
-	select {
-	case <-peerDone:
-	case <-time.After(5 * time.Second):
-	}
-	sum.Submits += int(submits)
-	sum.Sends += int(sends)
-	sum.Inbound += int(atomic.LoadInt32(&unsolicited))
-	sum.Pings += int(atomic.LoadInt32(&pings))
-	return problem
 }
